@@ -2,7 +2,7 @@
 from harness import dbg, expr, shellfuzz
 
 ID = "C14"
-MODULES = ["HeraProofs.Props.C14"]
+MODULES = ["HeraProofs.Props.C14", "HeraProofs.Props.C14b"]
 GENERATED_DEPS = []
 EXPLANATION = ("Theorems C14_eval / C14_eval_range (structural induction over all expression trees, every debugger state): "
                "Shell.evaluate_node computes exactly bounded integer arithmetic with floor division - a value in -32768..65535 or one "
@@ -11,11 +11,16 @@ EXPLANATION = ("Theorems C14_eval / C14_eval_range (structural induction over al
                "parentheses, all number bases and register spellings are checked against the tree that was written and the "
                "specification's value. Robustness: arbitrary command lines (every command and abbreviation, malformed arguments) in "
                "the states start / middle / finished / pc outside the program / inside a call / inconsistent call stack must return "
-               "to the prompt without an exception.")
+               "to the prompt without an exception. The parser reads what is written (C14b, over the parser model): mono_succ (more "
+               "fuel never changes a result), claimB / C14_parse_raw (for every expression tree over atom tokens, its text - written "
+               "with exactly the parentheses that precedence and left associativity require - is parsed back to that tree, whatever "
+               "follows it: `*` `/` over `+` `-`, left associativity, prefix `-` and `@` tighter than any infix operator, "
+               "parentheses override), C14_parse (the entry point with end of line and the depth limit).")
 ASSUMPTIONS = ["the lexer is not modelled: the parser model runs on the real lexer's token sequence",
                "robustness of the shell (no uncaught exception for any command line) is decided by the command-line stream on the real "
                "Shell, not by a theorem: the command handlers print and touch terminal state that no executable model here expresses",
-               "parse(render e) = e for all e is checked by the oracle stream, not yet a theorem"]
+               "C14_parse_raw is about the canonical text of a tree (minimal parentheses); redundant parentheses, number bases and "
+               "register spellings are covered by the oracle stream on the real parser"]
 
 
 def run(ctx):
